@@ -30,6 +30,25 @@ CLAIMED = {
         "technique": "Coq-verified table validator + N(T) soundness theorem + LR driver simulation proof; differential correspondence",
         "design": "DESIGN.md section 7, C04",
     },
+    "C20": {
+        "text": "Unbounded Coq theorems over a Gallina model of the import machinery (registry, first-import-path names, "
+                "root-relative local-first resolution, override validation, collection): for every directory (any number of "
+                "files, diamonds, cycles, aliases) a successful load registers each file once under a path that leads to it, "
+                "and -- without override rules -- the impl's resolution of a reference written in any loaded file finds exactly "
+                "the symbol the reference denotes from that file; overrides in the root reach every user for tree-shaped imports "
+                "and are refuted for diamonds (orphan non-terminal, partial replacement), plus two more refutations (inline "
+                "terminals are unqualified; override validation through a cycle crashes). The model is tied to /repo by "
+                "differential runs of Grammar.from_file on generated directories (outcome, registry, nonterminals/terminals keys "
+                "and order, productions with resolved right-hand sides); the property itself is checked by an independent "
+                "denotation/flatten oracle: every right-hand-side element is the denoted symbol, and modular vs flattened "
+                "grammar agree on acceptance and trees for generated inputs.",
+        "note": "Partial: equality of the collected grammar with the flattened grammar (C20_iso) is not a theorem, it is the "
+                "flatten oracle (tests). Known findings KF-C20-override-misses-users, KF-C20-inline-terminal-unqualified, "
+                "KF-C20-cycle-override-crash. Trusted: Coq kernel, extraction, OCaml driver, generator/printer of .pg files, "
+                "Python specification of denotation and flattening, grammar dump.",
+        "technique": "Coq proof over a Gallina model of import resolution + differential correspondence + flatten oracle",
+        "design": "DESIGN.md section 7, C20",
+    },
 }
 
 NOT_YET = "machinery for this property is not built yet in this commit (planned, see DESIGN.md section 12)"
